@@ -37,7 +37,8 @@ def margins(A, L, angles, S, atol, rtol, linear=False):
 
 
 def guard(L):
-    return 1e-11 * (1 + (max(L) if L else 0))
+    fin = [x for x in L if x != math.inf]
+    return 1e-11 * (1 + (max(fin) if fin else 0))
 
 
 def dense_rows(net_desc):
